@@ -9,7 +9,7 @@ TEXT = {
  'C05': ('Bounded symbolic model checking of the real decoder (IR-derived C, CBMC/SAT): every primitive from an arbitrary I_dec state on arbitrary remaining input of bounded length, at hooked window sizes; End-of-input must be thrown exactly when the input is a truncated prefix. Block/file level: CdnsBlockRead::read truncated at every token boundary and CdnsReader::read_block one step from an arbitrary reader state (nested reads as contracts): CdnsDecoderEnd propagates, eof exactly at the end, the block counter counts complete blocks only.', '4 C05, 3.2, 3.6'),
  'C06': ('Bounded symbolic model checking of the real encoder: one inductive step per public write operation from an arbitrary buffer state (symbolic fill level/contents/argument) against a reference RFC 8949 encoder; sequences of any length follow from the step.', '4 C06, 3.2'),
  'C07': ('Bounded symbolic model checking of the real decoder against a reference RFC 8949 parser, all head widths and window offsets; skip_item verified body-wise against the contract of its recursive call.', '4 C07, 3.3'),
- 'C01': ('Compositional bounded model checking: L1 bytes<->items is C06/C07; here L2: every block-level structure\'s write() equals an independently written RFC 8618 reference encoding and read() of the reference encoding returns the value (all presence subsets, full-width integers, symbolic member order). Block/table composition: see notes.', '4 C01, 3.5'),
+ 'C01': ('Compositional bounded model checking: L1 bytes<->items is C06/C07; here L2: every block-level structure\'s write() equals an independently written RFC 8618 reference encoding and read() of the reference encoding returns the value (all presence subsets, full-width integers, symbolic member order; directed runs with every member present). Block composition with the nested reads/writes as contracts: CdnsBlock::write / write_blocktables (w_block, w_blocktables), CdnsBlockRead::read (r_block_*: members, record order, parameter set, time-offset data flow under arbitrary hint masks), CdnsReader::read_block (reader_block_o0). Generic record -> block: C04. Not encoded: read_blocktables, read_generic_*, CdnsReader::read_file_header.', '4 C01, 3.5, 9.2, 9.3'),
  'C02': ('Bounded model checking of every *::write against an item acceptor: exactly one well-formed item per call, declared length == members present, every key followed by a value, including structures with no member set; block level: CdnsBlock::write helpers (w_blocktables, w_block) and the exporter document automaton one step at a time (header once before the first block, blocks, exactly one break iff blocks were written: exp_write_block, exp_rotate, exp_destroy).', '4 C02, 3.5, 9.1'),
  'C08': ('Bounded model checking of every map reader on the reference encoding with a symbolic permutation of the members, definite/indefinite form and unknown members with opaque values (<= 2..4 members per map in the quick tier), plus directed runs with every member present.', '4 C08, 3.5, 9.3'),
  'C09': ('Bounded model checking of the preamble structures: write() == RFC 8618 reference encoding, read(reference) == value member for member including presence and list order (symbolic-order readers for the small structures; directed readers -- every member present, canonical order, all values symbolic -- for FilePreamble, StorageParameters, CollectionParameters, BlockParameters).', '4 C09, 3.5, 9.3'),
